@@ -2739,6 +2739,10 @@ func getVarDependencies(nod *node, sc *scope) (deps []*node) {
 				// All blank identifiers share the same symbol.
 				return false
 			}
+			if n.anc.kind == fieldExpr && n != n.anc.lastChild() {
+				// The name of a field, a method or a parameter in a type expression.
+				return false
+			}
 			if n.anc.kind == keyValueExpr && n.anc.child[0] == n && isStruct(n.anc.typ) {
 				// A field name in a struct literal.
 				return false
